@@ -52,6 +52,11 @@ func BuildUnit(P *Program, key string, profile string, prop string) (*Unit, erro
 			e.ghostFns[gf.Name] = true
 		}
 	}
+	for _, lc := range fc.Loops {
+		for _, kf := range lc.KeyFns {
+			e.ghostFns[kf.Name] = true // declared when the range is met (the key sort is the map's)
+		}
+	}
 	e.inlineBusy[fn] = true
 	entryB := &baseNode{kind: baseEntry, memo: map[string]Term{}}
 	e.entryB = entryB
